@@ -91,6 +91,8 @@ H_SATURATING(fb_aws_add_u32_saturating, uint32_t, UINT32_MAX)
 H_SATURATING(fb_aws_add_u64_saturating, uint64_t, UINT64_MAX)
 H_CHECKED(fb_aws_mul_u32_checked, uint32_t)
 H_SATURATING(fb_aws_mul_u32_saturating, uint32_t, UINT32_MAX)
+H_CHECKED(fb_aws_mul_u64_checked, uint64_t)
+H_SATURATING(fb_aws_mul_u64_saturating, uint64_t, UINT64_MAX)
 
 /* ---- bit counts ---- */
 #define H_BITS(F, T, BITS)                                                                                             \
